@@ -219,7 +219,9 @@ func runC06(p *Prog, r *Report) {
 	if success == nil {
 		r.Undecided("contradictions", "R-GUARD", "success return of resolveFeatures not found")
 	} else {
-		has := func(field string, c int64, b bool) sigma { return sigma{k("contains(supportedFeatures.%s,%d)", field, c): b} }
+		has := func(field string, c int64, b bool) sigma {
+			return sigma{k("contains(supportedFeatures.%s,%d)", field, c): b}
+		}
 		flag := func(name string, b bool) sigma { return sigma{"supportedFeatures." + name: b} }
 		lenZero := func(field string, b bool) sigma { return sigma{k("len(supportedFeatures.%s)==0", field): b} }
 		rejected := []sigmaCase{
@@ -329,7 +331,9 @@ func runC06(p *Prog, r *Report) {
 		cver := func(v int64) sigma {
 			return sigma{k("ConfigCase.Version==%d", 0): v == 0, k("ConfigCase.Version==%d", v2): v == v2, k("ConfigCase.Version==%d", v3): v == v3}
 		}
-		useTLS := func(present, val bool) sigma { return sigma{"nil(ConfigCase.UseTls)": !present, "get(ConfigCase.UseTls)": val} }
+		useTLS := func(present, val bool) sigma {
+			return sigma{"nil(ConfigCase.UseTls)": !present, "get(ConfigCase.UseTls)": val}
+		}
 		useCC := func(present, val bool) sigma {
 			return sigma{"nil(ConfigCase.UseTlsClientCerts)": !present, "get(ConfigCase.UseTlsClientCerts)": val}
 		}
@@ -507,7 +511,10 @@ func runC06(p *Prog, r *Report) {
 						ok2 = true // returned as is
 					}
 				}
-				if guardedBy(ret, func(a Atom) bool { m, isNil := nilTestOn(a, func(v ssa.Value) bool { return v == errV }); return m && !isNil }) {
+				if guardedBy(ret, func(a Atom) bool {
+					m, isNil := nilTestOn(a, func(v ssa.Value) bool { return v == errV })
+					return m && !isNil
+				}) {
 					for _, v := range retVals(ret, 1) {
 						if !isNilValue(v) {
 							ok2 = true
